@@ -5,12 +5,14 @@ package main
 import (
 	"bytes"
 	"encoding/json"
+	"errors"
 	"fmt"
 	"net/http"
 	"net/http/httptest"
 	"os"
 	"path/filepath"
 	"strings"
+	"sync/atomic"
 	"testing"
 	"testing/synctest"
 	"time"
@@ -34,6 +36,8 @@ type c12Case struct {
 	Mode   string       `json:"mode"` // "" | local | remote-ok | remote-unreachable
 	Policy string       `json:"policy"`
 	Logins []c12Login   `json:"logins"`
+	// Outage (mode remote-ok): the first Outage calls to the master fail at transport level (master down), the later ones get through
+	Outage int `json:"outage,omitempty"`
 }
 
 var frontends = []string{"store", "sasl-callback", "basic-auth", "api-authenticate", "ldap-bind", "api-update-oldpw"}
@@ -43,6 +47,9 @@ func genC12(t *rapid.T) c12Case {
 	c.Mode = rapid.SampledFrom([]string{"", "local", "local", "local", "remote-ok", "remote-unreachable"}).Draw(t, "mode")
 	c.Policy = rapid.SampledFrom([]string{"", "", "score >= 2", "score >= 3", "entropy >= 30"}).Draw(t, "policy")
 	c.Tmp = rapid.SampledFrom([]string{"", "", "", "dir", "file"}).Draw(t, "tmp")
+	if c.Mode == "remote-ok" {
+		c.Outage = rapid.SampledFrom([]int{0, 0, 2, 10, 11, 25}).Draw(t, "outage")
+	}
 	names := []string{"bob", "Bob", "alice", "b@x-_."}
 	for i, n := 0, rapid.IntRange(1, 4).Draw(t, "nusers"); i < n; i++ {
 		aux, _ := vlib.GenAux(t, "aux", false)
@@ -115,7 +122,12 @@ func runC12(c c12Case) string {
 	var master *agentEnv
 	var masterMux *http.ServeMux
 	defaultTransportMu.Lock()
+	var rtCalls, rtFailed atomic.Int64
 	http.DefaultTransport = stubRT{mode: c.Mode, fn: func(r *http.Request) (*http.Response, error) {
+		if rtCalls.Add(1) <= int64(c.Outage) {
+			rtFailed.Add(1)
+			return nil, errors.New("dial tcp: connection refused (stub: master down)")
+		}
 		rec := httptest.NewRecorder()
 		masterMux.ServeHTTP(rec, r)
 		return rec.Result(), nil
@@ -215,12 +227,39 @@ func runC12(c c12Case) string {
 		vlib.Class("upgrade-performed:" + where)
 		return ""
 	}
+	if c.Outage > 0 && master != nil {
+		// the master is down for a while: successful logins with an upgradeable record each try (and fail) to reach it;
+		// nothing changes anywhere, and nothing is used up for later
+		for _, u := range c.Users {
+			if pid[u.Name] == c.Cfg.Default {
+				continue
+			}
+			before, mbefore := vlib.TakeSnap(e.base), vlib.TakeSnap(master.base)
+			for k := 0; k < c.Outage && rtCalls.Load() < int64(c.Outage); k++ {
+				if acc, _ := login(e, mux, "store", u.Name, u.PW); !acc {
+					return fmt.Sprintf("VIOLATION C12: login of %q with the right password refused while the master is unreachable", u.Name)
+				}
+				synctest.Wait()
+			}
+			if diff := before.Diff(vlib.TakeSnap(e.base), true, nil); len(diff) > 0 {
+				return fmt.Sprintf("VIOLATION C12: logins while the master is unreachable modified the store: %v", diff)
+			}
+			if diff := mbefore.Diff(vlib.TakeSnap(master.base), true, nil); len(diff) > 0 {
+				return fmt.Sprintf("VIOLATION C12: logins whose call to the master failed modified the master store: %v", diff)
+			}
+			if rtFailed.Load() >= int64(c.Outage) {
+				vlib.Class(fmt.Sprintf("remote:outage-of->=10-calls-then-reachable=%v", c.Outage >= 10))
+			}
+			break
+		}
+	}
 	for i, l := range c.Logins {
 		u := c.Users[l.U]
 		pw := u.PW
 		if !l.Right {
 			pw = u.PW + "x"
 		}
+		callsBefore, failedBefore := rtCalls.Load(), rtFailed.Load()
 		before := vlib.TakeSnap(e.base)
 		var mbefore vlib.Snap
 		if master != nil {
@@ -264,8 +303,23 @@ func runC12(c c12Case) string {
 					if diff := mbefore.Diff(vlib.TakeSnap(master.base), true, nil); len(diff) > 0 {
 						return fmt.Sprintf("VIOLATION C12: failed login #%d modified the master store: %v", i, diff)
 					}
-				} else if msg := judgeUpgrade(master, mpid, u, mbefore, false, "master"); msg != "" {
-					return msg
+				} else {
+					// the agent is idle and the master reachable: the slave, whose own copy is upgradeable, passes the login on and
+					// the master rewrites its copy (if it is upgradeable there, the password meets the policy, and JSON can carry it)
+					reached := rtFailed.Load() == failedBefore
+					must := reached && pid[u.Name] != c.Cfg.Default && mpid[u.Name] != c.Cfg.Default && policyPasses(c.Policy, u.PW, u.Name) && utf8.ValidString(u.PW)
+					if must && rtCalls.Load() == callsBefore {
+						return fmt.Sprintf("VIOLATION C12: [master] login #%d of %q (upgradeable, right password, idle agent, %d earlier calls of which %d failed) was not passed on to the master", i, u.Name, callsBefore, failedBefore)
+					}
+					if !reached {
+						must = false
+						if diff := mbefore.Diff(vlib.TakeSnap(master.base), true, nil); len(diff) > 0 {
+							return fmt.Sprintf("VIOLATION C12: a login whose call to the master failed modified the master store: %v", diff)
+						}
+					}
+					if msg := judgeUpgrade(master, mpid, u, mbefore, must, "master"); msg != "" {
+						return msg + fmt.Sprintf(" (login #%d via %s; %d calls to the master so far, %d failed)", i, l.Frontend, rtCalls.Load(), rtFailed.Load())
+					}
 				}
 			}
 		default: // local, right password
